@@ -452,7 +452,9 @@ Proof.
   cbn [sig_walk] in Hw. destruct this as [id|]; [|inversion Hw; subst; exact H].
   destruct (find_sgw id (sgws s)) as [w|]; [|discriminate].
   eapply IH; [|exact Hw]. destruct ((g_sig w =? sig) && (g_id w <? bound)).
-  - apply TW_actions; [|apply env_ok]. eapply TW_same; [exact H|reflexivity|reflexivity|cbn; lia].
+  - apply TW_actions.
+    + unfold sig_fire. destruct (g_id w <? 0); eapply TW_same; [exact H|reflexivity|reflexivity|cbn; lia|exact H|reflexivity|reflexivity|cbn; lia].
+    + unfold cb_acts. destruct (g_id w <? 0); [repeat constructor|apply env_ok].
   - eapply TW_same; [exact H|reflexivity|reflexivity|cbn; lia].
 Qed.
 
@@ -517,7 +519,9 @@ Proof.
       + eapply TW_stick; eassumption.
       + inversion E; subst. eapply TW_same; [exact H|reflexivity|reflexivity|cbn; lia].
       + inversion E; subst. eapply TW_same; [exact H|reflexivity|reflexivity|cbn; lia].
-      + eapply TW_run_passes; [|exact E]. eapply TW_same; [exact H|reflexivity|reflexivity|cbn; lia]. }
+      + destruct (run_passes fixed_cfg env fuel rk _) as [s2|] eqn:Er; [|discriminate]. inversion E; subst s1.
+        eapply TW_same; [eapply TW_run_passes; [|exact Er]|reflexivity|reflexivity|cbn; lia].
+        eapply TW_same; [exact H|reflexivity|reflexivity|cbn; lia]. }
   intros Hf. eapply G; [exact Hops|apply TW_sst0|exact Hf].
 Qed.
 
